@@ -2,6 +2,7 @@ from __future__ import annotations
 
 import copy
 import inspect
+import os
 from typing import Any
 
 import torch
@@ -96,9 +97,9 @@ class Optimizer(Identifiable, Runnable):
                 and self._epoch % self.checkpoint_frequency == 0
             ):
                 if self.checkpoint_all:
-                    checkpoint_file = self.checkpoint.replace(
-                        ".json", f"-{self._epoch}.json"
-                    )
+                    # one file per epoch, whatever the extension of the name
+                    root, ext = os.path.splitext(self.checkpoint)
+                    checkpoint_file = f"{root}-{self._epoch}{ext}"
                     self.save_full_state(checkpoint_file, overwrite=True)
                 else:
                     self.save_full_state(self.checkpoint)
@@ -176,9 +177,9 @@ class Optimizer(Identifiable, Runnable):
                 and self._epoch % self.checkpoint_frequency == 0
             ):
                 if self.checkpoint_all:
-                    checkpoint_file = self.checkpoint.replace(
-                        ".json", f"-{self._epoch}.json"
-                    )
+                    # one file per epoch, whatever the extension of the name
+                    root, ext = os.path.splitext(self.checkpoint)
+                    checkpoint_file = f"{root}-{self._epoch}{ext}"
                     self.save_full_state(checkpoint_file, overwrite=True)
                 else:
                     self.save_full_state(self.checkpoint)
